@@ -144,13 +144,12 @@ func (d *Data) MergeLabels(v dvid.VersionID, op labels.MergeOp, info dvid.ModInf
 	}
 
 	// Write the final merged index and also record surface_mutid since surface changed.
-	if err = targetIdx.Add(mergeIdx, mutInfo); err != nil {
+	// The target index is re-read and written back under its shard lock so that a change of the target
+	// body made since the read above (another merge into it, a block write) isn't lost.
+	if targetIdx, err = d.addToLabelIndex(v, op.Target, mergeIdx, mutInfo); err != nil {
 		return
 	}
-	dvid.Infof("putting targetIdx with user %s\n", targetIdx.LastModUser)
-	if err = PutLabelIndex(d, v, op.Target, targetIdx); err != nil {
-		return
-	}
+	dvid.Infof("put targetIdx with user %s\n", targetIdx.LastModUser)
 	for merged := range delta.Merged {
 		DeleteLabelIndex(d, v, merged)
 	}
@@ -289,17 +288,11 @@ func (d *Data) RenumberLabels(v dvid.VersionID, origLabel, newLabel uint64, info
 		return
 	}
 
-	if mergeIdx != nil && len(mergeIdx.Blocks) != 0 {
-		targetIdx = mergeIdx
-		targetIdx.LastMutid = mutID
-		targetIdx.LastModUser = info.User
-		targetIdx.LastModTime = info.Time
-		targetIdx.LastModApp = info.App
-		if err = PutLabelIndex(d, v, newLabel, targetIdx); err != nil {
-			return
-		}
+	// The index is re-read, stored under the new label and deleted under the old one as one step under
+	// the old label's shard lock so that a change made to the body since the read above isn't lost.
+	if targetIdx, err = d.moveLabelIndex(v, origLabel, newLabel, mutID, info); err != nil {
+		return
 	}
-	DeleteLabelIndex(d, v, origLabel)
 
 	dvid.Infof("renumber label %d: %d supervoxels, %d blocks\n", newLabel, len(mergeIdx.GetSupervoxels()), len(mergeIdx.Blocks))
 
